@@ -106,6 +106,13 @@ CHECKS = {
          "Data phase: close_notify / warning / fatal alert / EOF / EOF inside a record after k data records x closeSocket x ignoreAbruptClose: orderly close gives empty reads, closed-connection error on write and a resumable session; truncation is never a clean end; fatal alerts surface with their description.",
          "sendall() is blocking-complete; TLS 1.3 'complete last flight' is located with the reference receiver (first record under application keys)",
          "DESIGN.md §4 C17"),
+ "C18": ("exploration",
+         "model-based property testing of sequential histories + schedule-controlled concurrency (settrace scheduler with cooperative locks, generated and bounded-exhaustive schedules) + stress",
+         "Sequential SessionCache histories (set/get/advance-clock/invalidate, small id alphabets so ids repeat, small maxEntries/maxAge) are compared step by step with a dictionary-with-ages model; 2-3 threads x <= 3 operations on one SessionCache, VerifierDB or Python_RSAKey run under a "
+         "scheduler that owns every line-level preemption point and lock hand-over: results must be explainable by a program-order-respecting sequential order, RSA private operations must equal pow(m, d, n); all schedules with <= 2 switches in the first 12 (thorough 20) points are enumerated for fixed 2x2 programs; "
+         "free-running stress runs check invariants only.",
+         "line-level preemption under the GIL; boundary cases age == maxAge and exactly maxEntries-1 newer stores are 'either'",
+         "DESIGN.md §4 C18"),
  "C19": ("exploration",
          "property-based testing: snapshot purity/idempotence checks, enumerated out-of-domain values, and an under-approximating compatibility model vs real loopback handshakes",
          "validate() is run on lattice-constructed settings with a deep snapshot before/after (also when it raises), validate(validate(s)) is compared field-wise, results may name only loaded back-ends; every documented field is set to "
